@@ -37,6 +37,9 @@ type Cfg struct {
 	MsgType int    `json:"-"`      // message type of the request (0: the builder's default)
 	CloseErr bool  `json:"-"`      // the connection's Close reports an error (and closes all the same)
 	Log     int    `json:"-"`      // client logging option: 0 none, 1 summary, 2 debug, 3 dropped-packets (v6) / custom logger (v4)
+	WFault  bool   `json:"wfault"` // the schedule may take the link down: writes fail while it is down
+	ErrKind int    `json:"-"`      // what a failed write returns: 0 plain error, 1 temporary net.Error, 2 timeout net.Error
+	Dest    int    `json:"-"`      // destination variant (broadcast / unicast / scoped link-local / scoped multicast)
 }
 
 type dgram struct {
@@ -99,6 +102,7 @@ type Sim struct {
 	free        bool // free-running: hooks record, goroutines are never held (real parallelism)
 	goFlag      atomic.Bool
 	ready       sync.WaitGroup
+	ncalls      []int // calls made so far per caller
 }
 
 var gateEvents = map[string]bool{"SendPreLock": true, "SendPreTx": true, "Wake": true, "CancelPre": true,
@@ -356,7 +360,21 @@ func (s *Sim) release(role string) {
 
 func (s *Sim) start(c int) {
 	role := "c" + strconv.Itoa(c)
+	if s.started[c-1] {
+		// the same caller calls again on the same client: fresh context, nothing kept from the previous call
+		s.emit("Again", "c", c)
+		s.retd[c-1] = false
+		s.ctxDone[c-1] = false
+		s.ctxs[c-1], s.cancels[c-1] = context.WithCancel(context.Background())
+		s.mu.Lock()
+		delete(s.firstTx, role)
+		delete(s.want, role)
+		delete(s.parked, role)
+		s.mu.Unlock()
+		s.needProceed[role] = false
+	}
 	s.started[c-1] = true
+	s.ncalls[c-1]++
 	s.emit("Start", "c", c)
 	xid := s.cfg.Xid[c-1]
 	ctx := s.ctxs[c-1]
@@ -532,7 +550,7 @@ func (s *Sim) abort() {
 
 func (s *Sim) JSON(id int) []byte {
 	cfg := map[string]any{"T": s.cfg.T, "tries": s.cfg.Tries, "bufcap": s.cfg.BufCap, "v4": s.cfg.V4, "xid": s.cfg.Xid,
-		"urgent": s.cfg.Urgent, "timed": s.cfg.Timed, "mode": s.cfg.Mode}
+		"urgent": s.cfg.Urgent, "timed": s.cfg.Timed, "mode": s.cfg.Mode, "wfault": s.cfg.WFault, "errkind": s.cfg.ErrKind, "dest": s.cfg.Dest}
 	b, err := json.Marshal(map[string]any{"id": id, "cfg": cfg, "ev": s.trace})
 	if err != nil {
 		panic(err)
@@ -548,12 +566,30 @@ type fakeConn struct {
 	q      []*dgram
 	wake   chan struct{}
 	closed bool
-	dest   string
+	dest   *net.UDPAddr
+	down   bool            // the link is down: every write fails
+	failNext map[string]bool // per role: the next write fails (schedules chosen by TLC)
+}
+
+// writeErr is what a failed write returns; kind 1 and 2 are the "transient" errors of package net
+type writeErr struct{ kind int }
+
+func (e *writeErr) Error() string {
+	return [...]string{"write: network is down", "write: resource temporarily unavailable", "write: i/o timeout"}[e.kind]
+}
+func (e *writeErr) Temporary() bool { return e.kind >= 1 }
+func (e *writeErr) Timeout() bool   { return e.kind == 2 }
+
+func sameUDPAddr(a net.Addr, want *net.UDPAddr) bool {
+	u, ok := a.(*net.UDPAddr)
+	return ok && u != nil && want != nil && u.IP.Equal(want.IP) && u.Port == want.Port && u.Zone == want.Zone
 }
 
 var errClosed = errors.New("use of closed network connection")
 
-func newFakeConn(s *Sim) *fakeConn { return &fakeConn{s: s, wake: make(chan struct{}, 1)} }
+func newFakeConn(s *Sim) *fakeConn {
+	return &fakeConn{s: s, wake: make(chan struct{}, 1), failNext: map[string]bool{}}
+}
 
 func (f *fakeConn) push(d *dgram) {
 	f.mu.Lock()
@@ -599,7 +635,15 @@ func (f *fakeConn) WriteTo(b []byte, addr net.Addr) (int, error) {
 		f.s.record(role, "TxErr")
 		return 0, errClosed
 	}
-	f.s.record(role, "Tx", append([]byte(nil), b...), addr.String() == f.dest)
+	f.mu.Lock()
+	fail := f.down || f.failNext[role]
+	delete(f.failNext, role)
+	f.mu.Unlock()
+	if fail {
+		f.s.record(role, "TxErr")
+		return 0, &writeErr{f.s.cfg.ErrKind}
+	}
+	f.s.record(role, "Tx", append([]byte(nil), b...), sameUDPAddr(addr, f.dest))
 	return len(b), nil
 }
 
